@@ -388,7 +388,15 @@ def set_choice_type(rng):
         alts = []
         for i in range(n):
             if depth > 1 and (i == nested_at or rng.random() < .25):
-                alts.append(tree(depth - 1, depth - 1 > 1 and rng.random() < .5))
+                sub = tree(depth - 1, depth - 1 > 1 and rng.random() < .5)
+                if rng.random() < .35:
+                    # the nested CHOICE under an EXPLICIT tag of its own: the member then starts with that tag,
+                    # not with the tag of the value buried inside
+                    tg = next((x for x in pool if len(x) == 3 and isinstance(x[0], int)), None)
+                    if tg is not None:
+                        pool.remove(tg)
+                        sub = ('exp', (tg[0], 0, tg[1]), sub)
+                alts.append(sub)
             else:
                 alts.append(leaf())
         return ('choice', alts)
@@ -405,6 +413,8 @@ def set_choice_type(rng):
     T = ('set', fs)
 
     def paths(t):
+        if t[0] == 'exp' and t[2][0] == 'choice':
+            t = t[2]
         if t[0] != 'choice':
             return [()]
         return [(i,) + r for i, a in enumerate(t[1]) for r in paths(a)]
@@ -418,6 +428,8 @@ def set_choice_cases(ctx, g, n):
     out = []
 
     def val_at(t, pth):
+        if t[0] == 'exp' and t[2][0] == 'choice':
+            t = t[2]
         if t[0] != 'choice':
             return g.val(t)
         if pth:
